@@ -30,7 +30,7 @@ type robustImpl struct {
 
 func (r *robustImpl) reset(string) {}
 
-func repoDir() string {
+func robustRepoDir() string {
 	if v := getenv("VERIF_REPO"); v != "" {
 		return v
 	}
@@ -41,7 +41,7 @@ func (r *robustImpl) load() {
 	r.once.Do(func() {
 		r.dicts = map[string]*datadictionary.DataDictionary{}
 		for _, n := range []string{"FIX40", "FIX42", "FIX44", "FIX50SP2", "FIXT11"} {
-			d, err := datadictionary.Parse(filepath.Join(repoDir(), "spec", n+".xml"))
+			d, err := datadictionary.Parse(filepath.Join(robustRepoDir(), "spec", n+".xml"))
 			mustf(err, "load "+n)
 			r.dicts[n] = d
 		}
